@@ -464,6 +464,43 @@ pub fn string_spelling_programs() -> Vec<String> {
 /// functions declared to return a value whose body can be left without executing a `return`:
 /// every `return` sits inside a construct that may not run. The checker must reject them, or the
 /// call must still yield a value of the declared type.
+/// a declaration in a position that is only executed conditionally (a branch, a loop body - written
+/// with and without braces), and a use of the name after the construct: either the use is refused
+/// or it means what is in scope there, it never reaches a variable that was not made
+pub fn conditional_declaration_programs() -> Vec<String> {
+    let decls = ["y := g()", "(y, z) := (g(), 1)", "y := mut g()", "y := () -> int { return g(); }", "y := [g()]", "y := g() + 1"];
+    let uses = ["y + 1", "[y][0]", "f2 := () -> any { return y; }; f2()", "y", "y = 5; *y", "y()", "y[0]"];
+    let prelude = "g := () -> int { return 7; }; w := () -> int|string { return \"end\"; }; ";
+    let mut out = vec![];
+    for c in ["*(mut true)", "*(mut false)"] {
+        for d in decls {
+            let places = [
+                format!("if {c} 0 else {d}"),
+                format!("if {c} {{ 0 }} else {d}"),
+                format!("if {c} {d} else 0"),
+                format!("if {c} {d}"),
+                format!("if v: int = w() {{ 0 }} else {d}"),
+                format!("if v: string = w() {{ 0 }} else {d}"),
+                format!("while !{c} {d}"),
+                format!("while v: int = w() {d}"),
+                format!("for x in [1; 0]~ {d}"),
+                format!("for x in [1]~ {d}"),
+                format!("if {c} {{ {d}; }}"),
+                format!("if {c} {{ 0 }} else {{ {d}; }}"),
+                format!("match {c} {{ true => 0, => {d}, }}"),
+            ];
+            for place in &places {
+                for u in uses {
+                    out.push(format!("{prelude}{place}; {u}"));
+                    out.push(format!("{prelude}y := \"text\"; {place}; {u}"));
+                    out.push(format!("{prelude}f := () -> any {{ {place}; return {u}; }}; f()"));
+                }
+            }
+        }
+    }
+    out
+}
+
 pub fn missing_return_programs() -> Vec<String> {
     let constructs = [
         "while c { return 1; }",
